@@ -73,7 +73,8 @@ def job(case):
     try:
         res, table = grid_search(circ, grid, param_map(m, cs['keys']), step_size=1.0, simulation_time=float(STEPS),
                                  outputs={'x': 'all/lin1/x'}, inputs=inputs, permute_grid=cs['permute'], solver='euler',
-                                 vectorize=cs['vec'], verbose=False, float_precision='float64', clear=True)
+                                 vectorize=cs['vec'], verbose=False, float_precision='float64', clear=True,
+                                 **({'dde_approx': cs['approx']} if cs.get('approx') else {}))
     except Exception as e:
         import traceback
         return dict(exc=type(e).__name__, msg=str(e)[:300], tb=traceback.format_exc()[-700:])
@@ -86,7 +87,8 @@ def job(case):
     sep = {}
     for row in out['table']:
         mm = adapt(m, cs['keys'], row['vals'])
-        r = linmodel.run_model(mm, dict(steps=STEPS, store=1, cut=0, solver='euler', vec=cs['vec']))
+        r = linmodel.run_model(mm, dict(steps=STEPS, store=1, cut=0, solver='euler', vec=cs['vec']),
+                               **({'dde_approx': cs['approx']} if cs.get('approx') else {}))
         sep[row['label']] = r
     out['separate'] = sep
     return out
@@ -102,7 +104,7 @@ def run(ctx):
     ctx.assumptions += ['the oracle for the time series is a separate run() of the adapted model (itself checked against Solver.tla in C03)',
                         'linear integer models, Euler, dt = 1: exact comparison']
     c = tlc.cfg(constants=dict(Dev=set()), invariants=['LabelsInjective', 'EveryRowOnce', 'LabelKeepsItsRow', 'Export'])
-    r = tlc.run_tlc('Grid', c, workers=4, defs=dict(Cases='GridCases({1, 2}) \\cup EdgeAttrCases \\cup SharedTemplateCases'), mc_extends=['GridCases'])
+    r = tlc.run_tlc('Grid', c, workers=4, defs=dict(Cases='GridCases({1, 2}) \\cup EdgeAttrCases \\cup SharedTemplateCases \\cup ApproxDelayCases'), mc_extends=['GridCases'])
     ctx.add_tlc('design', r, 'P (linearize + label-based loop) satisfies M')
     if not r['ok']:
         ctx.spec_violation('design', r)
